@@ -534,6 +534,55 @@ var rulePools = &core.Rule{ID: "R04.3", Min: 6,
 				s.Check(after == "", key, c.Pos(put.Pos()), "no later use ("+how+")", "the value is still used (at "+after+") after it was put back into the pool: another goroutine can take and reset it in between (data race, results of another detection)")
 			}
 		}
+		// a function does not hand out what it puts back: a value given to Put (also by defer, which runs when the
+		// function returns) must not be returned, nor be wrapped by a call whose result is returned
+		for _, f := range c.SrcFuncs() {
+			for _, b := range f.Blocks {
+				for _, in := range b.Instrs {
+					var cc *ssa.CallCommon
+					switch x := in.(type) {
+					case *ssa.Defer:
+						cc = &x.Call
+					case *ssa.Call:
+						cc = &x.Call
+					default:
+						continue
+					}
+					if !core.MethodCalleeIs(cc, "sync", "Pool", "Put") || len(cc.Args) < 2 {
+						continue
+					}
+					mi, ok := cc.Args[1].(*ssa.MakeInterface)
+					if !ok {
+						continue
+					}
+					x := mi.X
+					if x.Referrers() == nil {
+						continue
+					}
+					escapes := ""
+					for _, r := range core.Returns(f) {
+						for ri := range r.Results {
+							v := spilled(r, ri)
+							if v == x {
+								escapes = c.Pos(r.Pos())
+							}
+							if call, ok := v.(*ssa.Call); ok {
+								for _, a := range call.Call.Args {
+									if a == x {
+										escapes = c.Pos(r.Pos())
+									}
+									if mi2, ok := a.(*ssa.MakeInterface); ok && mi2.X == x {
+										escapes = c.Pos(r.Pos())
+									}
+								}
+							}
+						}
+					}
+					key := fmt.Sprintf("%s: value put back at b%d is not handed out", core.FName(f), b.Index)
+					s.Check(escapes == "", key, c.Pos(in.Pos()), "not returned", "the function puts a value back into the pool and returns it (or a reader built on it) at "+escapes+": its caller works on an object that another goroutine may already have taken and reset")
+				}
+			}
+		}
 		s.Check(nGet >= 2, "pool Get sites", "-", fmt.Sprint(nGet), "fewer than two pooled objects found")
 		// Put arguments
 		for _, f := range c.AllModFuncs() {
